@@ -187,7 +187,20 @@ def tlaps_prove(scratch, module, deps, theorem):
             "theorem": theorem}
 
 
-TRACE_XMX = os.environ.get("VERIF_TRACE_XMX") or "4g"
+TRACE_XMX = os.environ.get("VERIF_TRACE_XMX") or "6g"
+
+
+def trace_workers():
+    """How many trace validations to run at a time: half the cores, but no more than fit into the memory that is available now."""
+    try:
+        gb = float(TRACE_XMX.rstrip("gGmM")) / (1024.0 if TRACE_XMX[-1] in "mM" else 1.0)
+        avail = 0.0
+        for line in open("/proc/meminfo"):
+            if line.startswith("MemAvailable:"):
+                avail = int(line.split()[1]) / (1024.0 * 1024.0)
+        return max(1, min(NCPU // 2, int(avail * 0.8 // max(gb, 0.5))))
+    except Exception:
+        return max(1, NCPU // 2)
 
 
 def tlc_trace_one(d, module, cfg, timeout):
@@ -231,7 +244,7 @@ def tlc_trace(scratch, module, cfg, trace_files, timeout=1800, label="tv"):
         os.replace(tf, os.path.join(d, "trace.ndjson"))
         jobs.append(d)
     results = []
-    with concurrent.futures.ThreadPoolExecutor(max_workers=max(1, NCPU // 2)) as ex:
+    with concurrent.futures.ThreadPoolExecutor(max_workers=trace_workers()) as ex:
         futs = {ex.submit(tlc_trace_one, d, module, cfg, timeout): d for d in jobs}
         for fut in concurrent.futures.as_completed(futs):
             d = futs[fut]
